@@ -52,6 +52,27 @@ def make_rhs(mu):
     return rhs
 
 
+def field_jacobian(mu, s):
+    """A(x) = Df(x), the 6x6 Jacobian of the CR3BP field."""
+    mu = float(mu)
+    om = 1.0 - mu
+    x, y, z = float(s[0]), float(s[1]), float(s[2])
+    d1 = np.array([x + mu, y, z])
+    d2 = np.array([x - om, y, z])
+    r1 = float(np.sqrt(d1 @ d1))
+    r2 = float(np.sqrt(d2 @ d2))
+    I3 = np.eye(3)
+    U = (np.diag([1.0, 1.0, 0.0])
+         - om * (I3 / r1 ** 3 - 3.0 * np.outer(d1, d1) / r1 ** 5)
+         - mu * (I3 / r2 ** 3 - 3.0 * np.outer(d2, d2) / r2 ** 5))
+    A = np.zeros((6, 6))
+    A[0, 3] = A[1, 4] = A[2, 5] = 1.0
+    A[3:, :3] = U
+    A[3, 4] = 2.0
+    A[4, 3] = -2.0
+    return A
+
+
 def jacobi(mu, s):
     x, y, z, vx, vy, vz = [float(v) for v in s[:6]]
     r1 = ((x + mu) ** 2 + y * y + z * z) ** 0.5
